@@ -455,6 +455,63 @@ def gen_case(rng, alloc, nops, dups=False, allow_nonfinite=False, maps=True, cro
     return M, lines, exp
 
 
+def vlit(v):
+    """protocol literal of a scalar mirror value"""
+    if v is None:
+        return "null"
+    if v is True:
+        return "true"
+    if v is False:
+        return "false"
+    if v[0] == "s":
+        return "s" + (v[1].hex() or "-")
+    return v[0] + str(v[1])
+
+
+def build_cmds(d, path, v, out):
+    """dom-* commands that assemble value v at node `path` of document d through the mutation API"""
+    ps = pstr(path)
+    if is_arr(v):
+        out.append(f"dom-set {d} {ps} arr")
+        for i, x in enumerate(v[1]):
+            if isinstance(x, list):
+                out.append(f"dom-push {d} {ps} null")
+                build_cmds(d, path + [("i", i)], x, out)
+            else:
+                out.append(f"dom-push {d} {ps} {vlit(x)}")
+    elif is_obj(v):
+        out.append(f"dom-set {d} {ps} obj")
+        for i, (k, x) in enumerate(v[1]):
+            if isinstance(x, list):
+                out.append(f"dom-add {d} {ps} {k.hex() or '-'} null 1")
+                build_cmds(d, path + [("m", i)], x, out)
+            else:
+                out.append(f"dom-add {d} {ps} {k.hex() or '-'} {vlit(x)} 1")
+    else:
+        out.append(f"dom-set {d} {ps} {vlit(v)}")
+
+
+NONFINITE = [0x7FF0000000000000, 0xFFF0000000000000, 0x7FF8000000000000, 0xFFF8000000000000, 0x7FF0000000000001, 0x7FF4000000000000,
+             0xFFFFFFFFFFFFFFFF, 0x7FFFFFFFFFFFFFFF, 0x7FF00000DEADBEEF]
+
+
+def api_tree(rng, depth=0, nonfinite=0.0, maxdepth=3):
+    """random value for API-built documents: arbitrary string bytes, all number kinds, optionally non-finite doubles"""
+    r = rng.random()
+    if depth >= maxdepth or r < 0.45:
+        if rng.random() < nonfinite:
+            return ("d", rng.choice(NONFINITE) if rng.random() < 0.8 else (0x7FF << 52) | rng.getrandbits(52) | (rng.getrandbits(1) << 63))
+        l, v = lit(rng)
+        while l in ("arr", "obj"):
+            l, v = lit(rng)
+        return v
+    n = rng.choice([0, 0, 1, 2, 3, 5, 9])
+    if r < 0.72:
+        return arr([api_tree(rng, depth + 1, nonfinite, maxdepth) for _ in range(n)])
+    keys = [rng.choice(KEYS) if rng.random() < 0.7 else bytes(rng.randrange(256) for _ in range(rng.randrange(0, 40))) for _ in range(n)]
+    return obj([[k, api_tree(rng, depth + 1, nonfinite, maxdepth)] for k in keys])
+
+
 def finish(M, lines, exp, rng, dump=True):
     if dump:
         for d in (0, 1):
